@@ -83,7 +83,8 @@ def c17_operand(g, cfg, idx):
     """-> (recipe, flags)"""
     n, dt = cfg["n"], cfg["dtype"]
     seed = g.randrange(1 << 30)
-    kind = g.choice(["psd", "psd", "sym", "gen", "diag", "kron", "sum", "tridiag", "scaled", "blockdiag", "generic"])
+    kind = g.choice(["psd", "psd", "sym", "gen", "diag", "kron", "sum", "tridiag", "scaled", "blockdiag", "generic",
+                     "ata", "sliced", "transpose", "kronsum", "identity", "sumgen"])
     real = dt in ("f4", "f8")
     fl = {"n": n, "dtype": dt, "psd": False, "sym": False, "real": real}
     if kind == "psd":
@@ -118,6 +119,29 @@ def c17_operand(g, cfg, idx):
         r = {"k": "smul", "c": g.choice([2.0, 0.5, 3.0]),
              "of": {"k": "ann", "name": "PSD", "of": {"k": "dense", "n": n, "dtype": dt, "seed": seed, "sym": "psd"}}}
         fl.update(psd=True, sym=True, annotated=True)
+    elif kind == "ata":  # Product pattern A^T A (inferred PSD)
+        inner = {"k": "dense", "n": n, "dtype": dt, "seed": seed, "sym": "gen"}
+        r = {"k": "product", "args": [{"k": "H", "of": inner}, inner]}
+        fl.update(psd=True, sym=True)
+    elif kind == "sliced":
+        inner = {"k": "ann", "name": "PSD", "of": {"k": "dense", "n": n + 2, "dtype": dt, "seed": seed, "sym": "psd"}}
+        r = {"k": "getitem", "of": inner, "s0": [1, n + 1], "s1": [1, n + 1]}
+        fl.update(psd=True, sym=True, annotated=True)
+    elif kind == "transpose":
+        r = {"k": "transpose_cls", "of": {"k": "generic", "n": n, "dtype": dt, "seed": seed, "sym": "gen"}}
+    elif kind == "kronsum":
+        a, b = g.choice([(2, 2), (2, 3), (1, 3)])
+        r = {"k": "kronsum", "args": [
+            {"k": "ann", "name": "PSD", "of": {"k": "dense", "n": a, "dtype": dt, "seed": seed, "sym": "psd"}},
+            {"k": "ann", "name": "PSD", "of": {"k": "dense", "n": b, "dtype": dt, "seed": seed + 1, "sym": "psd"}}]}
+        fl.update(psd=True, sym=True, n=a * b)
+    elif kind == "identity":
+        r = {"k": "smul", "c": 2.0, "of": {"k": "identity", "n": n, "dtype": dt}}
+        fl.update(psd=True, sym=True)
+    elif kind == "sumgen":  # Sum of a generic (array-less) operator and a diagonal: diag/trace recurse into factors
+        r = {"k": "sum", "args": [{"k": "generic", "n": n, "dtype": dt, "seed": seed, "sym": "psd"},
+                                  {"k": "diag", "n": n, "dtype": dt if real else "f8", "seed": seed + 1}]}
+        fl.update(psd=True, sym=True)
     else:  # blockdiag
         a = max(1, n // 2)
         r = {"k": "blockdiag", "args": [
@@ -233,6 +257,11 @@ def c17_call(g, cfg, slot, fl):
     return {"op": "call", "fn": fn, "args": a}, pbar
 
 
+ALG_OF = {"diag_hutch": "Hutch", "trace_hutch": "Hutch", "diag_auto": "Auto", "trace_auto": "Auto",
+          "eig_lanczos": "Lanczos", "eig_arnoldi": "Arnoldi", "eig_power": "PowerIteration", "eig_auto1": "Auto",
+          "eigmax": "Auto", "eig_lobpcg": "LOBPCG"}
+
+
 def strip(step):
     return {k: v for k, v in step.items() if k in ("fn", "args")}
 
@@ -258,6 +287,7 @@ def gen_c17(g, run_seed, tier, opts):
         add({"op": "make", "slot": slot, "recipe": r})
         operands.append((slot, fl))
     calls = []
+    algobjs = {}
     for _ in range(cfg["nsteps"]):
         u = g.random()
         if u < cfg["user_p"]:
@@ -279,6 +309,19 @@ def gen_c17(g, run_seed, tier, opts):
             slot, fl = g.choice(operands)
             st, _ = c17_call(g, cfg, slot, fl)
         fl = dict(operands)[slot]
+        if "repeat_of" not in st and st["fn"] in ALG_OF and g.random() < 0.3:
+            # the user builds the algorithm object once and reuses it (also on other operands and in repeats)
+            cls = ALG_OF[st["fn"]]
+            kw = {k: v for k, v in st["args"].items() if k not in ("A", "k", "which", "b")}
+            have = [n for n, (c, w) in algobjs.items() if c == cls]
+            if have and g.random() < 0.5:
+                name = g.choice(have)
+            else:
+                name = "g%d" % (len(algobjs) + 1)
+                algobjs[name] = (cls, kw)
+                add({"op": "mkalg", "name": name, "cls": cls, "kw": kw})
+            st["args"] = dict({k: v for k, v in st["args"].items() if k in ("A", "k", "which", "b")},
+                              alg={"algobj": name})
         pbar = bool(st["args"].get("pbar"))
         plan = fault_plan(g, cfg, fl["probe"] or st["fn"] == "slq", pbar)
         if plan:
@@ -368,4 +411,74 @@ def crash_programs_c17(verif_seed):
                 s["id"] = j
             out.append({"program": {"property": "C17", "run_seed": 7000 + i, "rng0": 5, "config": {}, "mode": "explicit",
                                     "steps": steps}, "target": 2, "name": "%s/%s" % (fn, "probe" if probe else "plain")})
+    return out
+
+
+# ------------------------------------------------------------------------------------------
+# C17 dispatch-path sweep: every randomised entry point that takes an algorithm object x every operator
+# kind with its own structural rule, with ONE caller-owned algorithm object reused across operands:
+#   c1 = R(G, alg)   c2 = R(A_kind, alg)   repeat c1   repeat c2        (exhaustive over the two lists)
+def _p(r):
+    return {"k": "ann", "name": "PSD", "of": r}
+
+
+def path_kinds(n=4):
+    d = lambda s, sym="psd", m=n: {"k": "dense", "n": m, "dtype": "f8", "seed": s, "sym": sym}  # noqa: E731
+    gen = lambda s, sym="psd", m=n: {"k": "generic", "n": m, "dtype": "f8", "seed": s, "sym": sym}  # noqa: E731
+    return {
+        "dense": _p(d(1)), "generic": _p(gen(2)),
+        "kron": {"k": "kron", "args": [_p(d(3, m=2)), _p(gen(4, m=2))]},
+        "kron_dense": {"k": "kron", "args": [_p(d(3, m=2)), _p(d(4, m=2))]},
+        "kronsum": {"k": "kronsum", "args": [_p(gen(5, m=2)), _p(d(6, m=2))]},
+        "sum": {"k": "sum", "args": [_p(d(7)), _p({"k": "diag", "n": n, "seed": 8})]},
+        "sumgen": {"k": "sum", "args": [_p(gen(9)), _p({"k": "diag", "n": n, "seed": 10})]},
+        "blockdiag": {"k": "blockdiag", "args": [_p(gen(11, m=1)), _p(gen(12, m=1))], "mult": [2, 2]},
+        "ata": {"k": "product", "args": [{"k": "H", "of": gen(13, "gen")}, gen(13, "gen")]},
+        "sliced": {"k": "getitem", "of": _p(gen(14, m=n + 2)), "s0": [1, n + 1], "s1": [1, n + 1]},
+        "transpose": _p({"k": "transpose_cls", "of": gen(15)}),
+        "scaled": {"k": "smul", "c": 2.0, "of": _p(gen(16))},
+        "scaled_identity": {"k": "smul", "c": 2.0, "of": {"k": "identity", "n": n, "dtype": "f8"}},
+        "diag": _p({"k": "diag", "n": n, "seed": 17}),
+        "tridiag": {"k": "ann", "name": "SelfAdjoint", "of": {"k": "tridiag", "n": n, "seed": 18, "symm": True}},
+        "probe": _p({"k": "probe", "inner": gen(19), "pid": 0}),
+        "complex": {"k": "ann", "name": "PSD", "of": {"k": "generic", "n": n, "dtype": "c16", "seed": 20, "sym": "psd"}},
+        "float32": {"k": "ann", "name": "PSD", "of": {"k": "generic", "n": n, "dtype": "f4", "seed": 21, "sym": "psd"}},
+    }
+
+
+PATH_ROUTINES = [
+    ("diag_hutch", "Hutch", {"tol": 0.2, "max_iters": 2}, {"k": 0}),
+    ("diag_hutch", "Hutch", {"tol": 0.2, "max_iters": 2, "rand": "rademacher"}, {"k": -1}),
+    ("trace_hutch", "Hutch", {"tol": 0.2, "max_iters": 2}, {}),
+    ("diag_auto", "Auto", {"tol": 0.2, "max_iters": 2}, {"k": 0}),
+    ("trace_auto", "Auto", {"tol": 0.2, "max_iters": 2}, {}),
+    ("eig_power", "PowerIteration", {"max_iter": 3}, {}),
+    ("eig_auto1", "Auto", {"max_iter": 3}, {}),
+    ("eig_lanczos", "Lanczos", {"max_iters": 3}, {"k": 1, "which": "LM"}),
+    ("eig_arnoldi", "Arnoldi", {"max_iters": 3}, {"k": 1, "which": "LM"}),
+]
+
+
+def path_programs_c17():
+    out = []
+    kinds = path_kinds()
+    G = {"k": "ann", "name": "PSD", "of": {"k": "generic", "n": 4, "dtype": "f8", "seed": 99, "sym": "psd"}}
+    for fn, cls, kw, extra in PATH_ROUTINES:
+        for kname, rec in sorted(kinds.items()):
+            for key in (7, None):
+                akw = dict(kw)
+                if key is not None:
+                    akw["key"] = key
+                c1 = {"op": "call", "fn": fn, "args": dict({"A": {"slot": "G"}, "alg": {"algobj": "g"}}, **extra)}
+                c2 = {"op": "call", "fn": fn, "args": dict({"A": {"slot": "AK"}, "alg": {"algobj": "g"}}, **extra)}
+                steps = [{"op": "make", "slot": "G", "recipe": G}, {"op": "make", "slot": "AK", "recipe": rec},
+                         {"op": "mkalg", "name": "g", "cls": cls, "kw": akw},
+                         {"op": "user", "act": ["reseed", 11], "slot": "s0"},
+                         dict(c1), dict(c2), {"op": "user", "act": ["draw", "randn", 2], "slot": "s0"},
+                         dict(c1, repeat_of=4), dict(c2, repeat_of=5), {"op": "user", "act": ["draw", "rand", 2], "slot": "s0"}]
+                for j, s in enumerate(steps):
+                    s["id"] = j
+                out.append({"name": "%s/%s/key=%s" % (fn, kname, key),
+                            "program": {"property": "C17", "run_seed": 0, "rng0": 3, "config": {"path": [fn, kname, key]},
+                                        "mode": "explicit", "steps": steps}})
     return out
